@@ -629,3 +629,32 @@ func c09filterFields(c *core.Ctx) (rlF, urlsF, specF *types.Var) {
 	specF = c09fieldByType(c, c09flt, "RateLimiter", func(t types.Type) bool { return c09isPtrTo(t, c09flt, "Spec") }, "spec")
 	return
 }
+
+// c09isPolicyCmp: the role of the two-generation policy comparison — a function or method of the
+// filter package returning bool that gets two *Spec (receiver included) and one policy name.
+func c09isPolicyCmp(g *flow.Func, fd *ast.FuncDecl) bool {
+	if fd.Type.Results == nil || len(fd.Type.Results.List) != 1 || len(fd.Type.Results.List[0].Names) > 1 {
+		return false
+	}
+	if tv, ok := g.Info.Types[fd.Type.Results.List[0].Type]; !ok || tv.Type.String() != "bool" {
+		return false
+	}
+	specs, strs := 0, 0
+	count := func(t types.Type) {
+		switch {
+		case c09isPtrTo(t, c09flt, "Spec"):
+			specs++
+		case t.String() == "string":
+			strs++
+		}
+	}
+	if rv := c09recv(g); rv != nil {
+		count(rv.Type())
+	} else if fd.Recv != nil {
+		return false
+	}
+	for _, p := range c09params(g) {
+		count(p.Type())
+	}
+	return specs == 2 && strs == 1
+}
